@@ -50,6 +50,12 @@ func (d *Decoder) ExpectTypesInInterface(types ...reflect.Type) {
 	d.expectedTypes = types
 }
 
+// GetExpectedTypes returns predictions which were set by ExpectTypesInInterface and wasn't used yet. Custom
+// unmarshalers which decode nested message by another decoder (like gzip_packed does) must pass them through.
+func (d *Decoder) GetExpectedTypes() []reflect.Type {
+	return d.expectedTypes
+}
+
 // CheckErr returns first error occurred while decoding, like Encoder.CheckErr does. Custom unmarshalers must
 // check it, cause Pop* methods return zero values after the error
 func (d *Decoder) CheckErr() error {
